@@ -104,11 +104,11 @@ def sow(x, sc, D, crop=None):
 def setup(x, sc, D):
     """Build the pre-state; returns what an uninterrupted run delivers."""
     os.makedirs(D)
-    ctx = {}
-    if sc["farmer"] == "harvester":
+    ctx = {"pre_rows": []}
+    if sc["farmer"] == "harvester" and not sc.get("no_pre"):
         f, _ = make_farmer(x, sc, D)
         f.harvest_combos({"a": [100, 101], "b": ["p"]}, verbosity=0)
-    if sc["farmer"] == "sampler":
+    if sc["farmer"] == "sampler" and not sc.get("no_pre"):
         f, _ = make_farmer(x, sc, D)
         np.random.seed(sc["seed"] + 1)
         f.sample_combos(3, verbosity=0)
@@ -330,6 +330,8 @@ def check_delivery(x, sc, D, res, ctx, tag, batches=None):
 def check_store(x, sc, D, ctx, tag, need_new):
     """Earlier data must have survived (and the new data be there)."""
     kind = sc["farmer"]
+    if sc.get("no_pre") and not need_new:
+        return      # first ever sync: there is no earlier data to survive
     if kind == "harvester":
         path = os.path.join(D, "full.h5")
         require(os.path.exists(path), "harvester-file-lost",
@@ -340,7 +342,7 @@ def check_store(x, sc, D, ctx, tag, need_new):
             core.violated("harvester-file-corrupt",
                           f"{tag}: the harvester's file cannot be loaded: "
                           f"{type(e).__name__}: {e}")
-        for a in (100, 101):
+        for a in (() if sc.get("no_pre") else (100, 101)):
             ok = a in ds["a"].values.tolist()
             if ok:
                 v = float(ds["out"].sel(a=a, b="p").values)
@@ -407,6 +409,8 @@ def run_case(case):
     x = xyz()
     sc = case
     k, prefix = case["k"], case.get("prefix")
+    if case.get("uninterrupted"):
+        return run_uninterrupted(x, sc)
     with core.scratch("xv-c10-") as top:
         D = os.path.join(top, "w")
         out = os.path.join(top, "out.pkl")
@@ -465,6 +469,27 @@ def run_case(case):
                         else "single-crash"]}
 
 
+def run_uninterrupted(x, sc):
+    """The crash 'after the last operation' of the previous step: the next
+    documented step (re-sow / grow / reap from a new process), run without
+    any interference, must work."""
+    with core.scratch("xv-c10u-") as top:
+        D = os.path.join(top, "w")
+        out = os.path.join(top, "out.pkl")
+        with core.quiet():
+            setup(x, sc, D)
+        code, payload = run_child(lambda: victim(x, sc, D), out)
+        if payload is None:
+            raise core.HarnessError(f"uninterrupted child died with {code}")
+        if payload[0] != "ok":
+            core.violated(
+                f"step-fails-without-crash:{payload[1][0]}",
+                f"{sc['phase']} from a new process on the state left by the "
+                f"completed previous step raised {payload[1][0]}: "
+                f"{payload[1][1]}\n{payload[1][2]}")
+    raise core.HarnessError("dry run failed but the step works: harness bug")
+
+
 # -------------------------------------------------------------- enumeration
 
 def scenarios(tier, seed):
@@ -487,6 +512,10 @@ def scenarios(tier, seed):
                                     for _ in range(rng.randint(0, 2))],
                       "rm_order": rng.choice(["scandir", "sorted",
                                               "reversed"])}
+                if farmer in ("harvester", "sampler") and r % 3 == 2:
+                    # the crop's reap is the first thing ever written to the
+                    # farmer's data file
+                    sc["no_pre"] = True
                 out.append(sc)
     return out
 
@@ -494,8 +523,14 @@ def scenarios(tier, seed):
 def enumerate_cases(tier, seed):
     import random
     for sc in scenarios(tier, seed):
-        with core.quiet():
-            ops = dry_run(sc)
+        try:
+            with core.quiet():
+                ops = dry_run(sc)
+        except core.HarnessError:
+            # the step fails without any crash: decided (violation or
+            # harness error) in run_case
+            yield dict(sc, k=None, uninterrupted=True)
+            continue
         rng = random.Random(models.kw_number(
             {k: v for k, v in sc.items() if k != "pre_grown"}))
         for k, op in enumerate(ops):
